@@ -31,7 +31,9 @@ RULE = ("model tie: the extracted Coq model of Hasher (hasher_inputs) vs the rea
         "public assemble() called AGAIN on the same object before write() with the tree unchanged, and assemble() again after one "
         "file grew / shrank / was added / was removed (judged against the tree on disk at that moment) -- and the command line with "
         "--prog 0|1|2 and --quiet; a third of the unit-correspondence cases are re-assembled too.  Names include runs of dots inside "
-        "a name (wait....bin, disc..2, ..hidden, a..).  A case is non-trivial when it is distinct and hits at least one boundary class.")
+        "a name (wait....bin, disc..2, ..hidden, a..).  A fifth of the end-to-end directories contain symbolic links to files of the "
+        "payload (to a sibling, into a sub-directory, from a sub-directory upwards with .. in the link text, now and then to another "
+        "link): judged as the files a reader following links sees.  A case is non-trivial when it is distinct and hits at least one boundary class.")
 TRUSTED_BASE = [
     "Coq 8.16.1 kernel; theorems closed under the global context; SHA-1 is an arbitrary function H1 in every theorem",
     "hand-written model Model/Hasher.v tied to hasher.py by differential execution (extracted OCaml vs the real iterator)",
@@ -42,7 +44,9 @@ TRUSTED_BASE = [
     "extraction: ExtrOcamlBasic, ExtrOcamlString; OCaml SHA-1 (ocaml/sha.ml, self-tested against hashlib) for the correspondence only",
     "os.listdir/readinto/getsize on regular files behave as specified; no concurrent writer",
 ]
-ASSUMPTIONS = ["no symlinks or special files in the content tree (excluded by the property)",
+ASSUMPTIONS = ["no special files, dangling links, link loops or symlinked directories in the content tree; symbolic links to files of "
+               "the payload are part of the end-to-end search only (a reader following links sees a file named like the link with "
+               "the target's bytes) -- Model/Creators.v has no notion of a link, its correspondence runs on link-free trees",
                "file names are valid UTF-8 without '/' (a Python str is collapsed to its UTF-8 bytes; code-point order = byte order)",
                "the payload contains at least one file (Hasher([]) raises; excluded by the creator-level theorems via has_file)",
                "independence of the enumeration order / path spelling is C08's subject; here the order is an input of model and code alike"]
@@ -172,10 +176,17 @@ def e2e_case(ctx, i, tmp):
     from torrentfile.cli import execute
     state = rng_state(ctx.rng)
     pl = ctx.rng.choice([16384, 16384, 32768, 65536])
-    tree, cl = trees.gen_tree(ctx.rng, pl)
-    single = list(tree) == [()]
+    ltree, cl = trees.gen_tree(ctx.rng, pl)
+    single = list(ltree) == [()]
+    if not single and (i % 5 == 1 or ctx.rng.random() < 0.1):
+        # symbolic links to files of the payload (trees.add_links: to a sibling, into a sub-directory, from a sub-directory
+        # upwards; 5 is coprime to the 4 routes).  The creator follows links: for the judge below, which reads the tree as it
+        # is on disk the same way, a link is a file named like the link with the target's bytes
+        ltree, lcl = trees.add_links(ctx.rng, ltree)
+        cl |= lcl
+    tree = trees.resolve_links(ltree)       # the reader's view: plain bytes everywhere; ltree is what gets written
     root = os.path.join(tmp, f"c{i}", "payload.bin" if single else "payload")
-    trees.write_tree(root, tree)
+    trees.write_tree(root, ltree)
     out = os.path.join(tmp, f"c{i}", "o.torrent")
     # route: every fourth case through the command line (--prog 0|1|2 and --quiet in turn); the others through the library with
     # progress 0|1|2 and, in turn, a fresh create / assemble() called AGAIN on the same object with the tree unchanged /
@@ -185,12 +196,16 @@ def e2e_case(ctx, i, tmp):
     reassemble = None if via_cli else REASSEMBLE[i % 4]
     before, change, how = tree, False, None
     if reassemble == "changed":
-        tree, how = trees.mutate_tree(ctx.rng, before, pl)
+        lbefore = ltree
+        ltree, how = trees.mutate_tree(ctx.rng, lbefore, pl)
+        tree = trees.resolve_links(ltree)
 
         def change():
-            trees.rewrite_tree(root, before, tree)
+            trees.rewrite_tree(root, lbefore, ltree)
     desc = {"tree": trees.tree_summary(tree), "piece_length": pl, "cli": via_cli, "progress": progress, "reassemble": reassemble,
             "index": i, "case": f"e2e:{i}", "rng_state": state}
+    if trees.has_links(ltree):      # {path of the link: text of the link}; "tree" shows the links as the files a reader sees
+        desc["symlinks"] = trees.link_summary(ltree)
     if how:
         desc.update(tree_at_construction=trees.tree_summary(before), change=how)
     try:
@@ -257,6 +272,10 @@ def run(ctx, model_ok):
     cc.unit_for(ctx, model_ok, CREATOR_KINDS, n=180 if quick else 1440, budget=90000 if quick else 300000,
                 required=CREATOR_CLASSES)
     e2e(ctx)
+    for shape in trees.LINK_SHAPES:
+        if ctx.classes.get("file symlink " + shape, 0) < 2:
+            ctx.broken.append(f"boundary class 'file symlink {shape}' was hit {ctx.classes.get('file symlink ' + shape, 0)} times "
+                              "(< 2) by the end-to-end search: the run is not accepted")
 
 
 # ------------------------------------------------------------------------------------------------ replay toolkit
@@ -564,7 +583,8 @@ def _replay_e2e(ctx, kind, inp, tmp):
     desc = e2e_case(fresh, inp["index"], tmp)
     if desc["tree"] != inp.get("tree") or desc["piece_length"] != inp.get("piece_length"):
         return cannot(kind, f"the generator no longer yields the recorded tree: {desc['tree']} vs {inp.get('tree')}")
-    print(f"{tag} case {inp['index']}: tree {desc['tree']}, piece length {desc['piece_length']}, " + route_name(desc))
+    print(f"{tag} case {inp['index']}: tree {desc['tree']}, piece length {desc['piece_length']}, " + route_name(desc)
+          + (f"; symbolic links inside the payload {desc['symlinks']}" if desc.get("symlinks") else ""))
     for f in fresh.failures:
         print(f"{tag} VIOLATION {f['kind']}: {f['observed']}")
     if not fresh.failures:
